@@ -112,8 +112,10 @@ Fixpoint resolve (fuel : nat) (s : fs) (p : path) : rres :=
 Definition LINK_FUEL : nat := 40.
 Definition follow (s : fs) (p : path) : rres := resolve LINK_FUEL s p.
 
-Definition exists_follow (s : fs) (p : path) : bool :=    (* std::path::Path::exists *)
+Definition exists_follow (s : fs) (p : path) : bool :=    (* std::path::Path::exists / metadata().is_ok() *)
   match follow s p with RFound _ _ => true | _ => false end.
+(* fs::symlink_metadata(p).is_ok(): anything at all is present at p, the final component is NOT followed *)
+Definition lexists (s : fs) (p : path) : bool := match names s p with Some _ => true | None => false end.
 
 (* bytes seen by a reader that opens p (following links) *)
 Definition file_bytes (s : fs) (p : path) : option (list N) :=
@@ -137,10 +139,11 @@ Inductive call :=
 | CopyTo (a b : path) (now : Z)    (* std::fs::copy *)
 | Utimes (a : path) (mt : Z)       (* utimensat (follows links) *)
 (* queries: not in the fault class, never change the state *)
-| Exists (a : path) | IsDir (a : path) | OpenR (a : path).
+| Exists (a : path) | IsDir (a : path) | OpenR (a : path)
+| LExists (a : path).             (* lstat: used by check_can_rename since the K6 fix (041ee27) *)
 
 Definition is_query (c : call) : bool :=
-  match c with Exists _ | IsDir _ | OpenR _ => true | _ => false end.
+  match c with Exists _ | IsDir _ | OpenR _ | LExists _ => true | _ => false end.
 
 Definition ncall (c : call) : call :=
   match c with
@@ -159,6 +162,7 @@ Definition ncall (c : call) : call :=
   | Exists a => Exists (norm a)
   | IsDir a => IsDir (norm a)
   | OpenR a => OpenR (norm a)
+  | LExists a => LExists (norm a)
   end.
 
 Definition node_is_file_same (n n' : node) : bool :=
@@ -288,6 +292,7 @@ Definition nat_ncall (c : call) (s : fs) : res * fs :=
   | Exists a => (if exists_follow s a then ROk else RErr ENOENT, s)
   | IsDir a => (match follow s a with RFound _ NDir => ROk | _ => RErr ENOTDIR end, s)
   | OpenR a => (match follow s a with RFound _ _ => ROk | RLoop => RErr ELOOP | RDangling _ => RErr ENOENT end, s)
+  | LExists a => (if lexists s a then ROk else RErr ENOENT, s)
   end.
 
 Definition nat_call (c : call) (s : fs) : res * fs := nat_ncall (ncall c) s.
